@@ -103,7 +103,7 @@ func checkCompositeLiteral(
 	}
 
 	// Check if we're in one of the allowed constructors
-	if constructors.Match(pkgPath, currentFunction, typeName) {
+	if pass.Pkg != nil && pass.Pkg.Path() == pkgPath && constructors.Match(pkgPath, currentFunction, typeName) {
 		return nil
 	}
 
@@ -163,7 +163,7 @@ func checkNewCall(
 	}
 
 	// Check if we're in one of the allowed constructors
-	if constructors.Match(pkgPath, currentFunction, typeName) {
+	if pass.Pkg != nil && pass.Pkg.Path() == pkgPath && constructors.Match(pkgPath, currentFunction, typeName) {
 		return nil
 	}
 
@@ -235,7 +235,7 @@ func checkVarDeclaration(
 			}
 
 			// Check if we're in one of the allowed constructors
-			if constructors.Match(pkgPath, currentFunction, typeName) {
+			if pass.Pkg != nil && pass.Pkg.Path() == pkgPath && constructors.Match(pkgPath, currentFunction, typeName) {
 				continue
 			}
 
